@@ -236,6 +236,38 @@ func c04(c *core.Check) {
 	// ---- R8 relative units
 	c04RelativeUnits(c)
 
+	// ---- R9 computed values are per element: a computer function never converts the declared value in place
+	r9 := c.Rule("R9", "no computer function writes through the declared value it receives (it belongs to the stylesheet or to the initial values and is shared by every element the rule matches): otherwise the first element computed fixes the value of all the others", 30)
+	{
+		eng := core.NewEffectsEngine(p, func(fn *ssa.Function, in ssa.Instruction) bool {
+			_, ok := c15WriteExempt[core.FuncName(fn)+" | "+p.StmtTextAt(fn, in.Pos())]
+			return ok
+		})
+		if ctab, err := p.Table("html/tree", "tmp"); err != nil {
+			r9.Anchor("html/tree computer table")
+		} else {
+			seen := map[*ssa.Function]bool{}
+			for _, e := range ctab {
+				f, ok := e.ValObj.(*types.Func)
+				if !ok {
+					continue
+				}
+				fn := p.SSA.FuncValue(f)
+				if fn == nil || seen[fn] || len(fn.Params) != 3 {
+					continue
+				}
+				seen[fn] = true
+				ws := eng.WritesFrom(fn, func(v ssa.Value) bool { return v == ssa.Value(fn.Params[2]) })
+				if len(ws) == 0 {
+					r9.OK("computer "+fn.Name()+" does not write through its declared value", p.Pos(fn.Pos()), "no store, map update, copy or in-place append reaches memory derived from the _value parameter (callee summaries included)")
+				}
+				for _, w := range ws {
+					r9.Fail(fmt.Sprintf("computer %s | %s", fn.Name(), p.StmtTextAt(fn, w.Instr.Pos())), p.Pos(w.Instr.Pos()), fmt.Sprintf("%s %s: every other element matched by the same rule then receives this element's computed value", w.What, w.Via))
+				}
+			}
+		}
+	}
+
 	// ---- R5 root never dereferences its parent (H4)
 	r5 := c.Rule("R5", "every method call through ComputedStyle.parentStyle (nil on the root element) is dominated by a test that it is not nil (`!= nil` or !isRootElement())", 5)
 	parentNilGuard(c, r5)
